@@ -13,6 +13,7 @@ from common import hx
 
 FILES = ["gen/Gen_core.v", "Model_core.v", "Model_minerals.v", "Proofs_core.v", "Proofs_minerals.v", "Proofs_flow.v",
          "Entry_core.v", "Extract_core.v"]
+FILES += [f for f in MT.GLUE_TIE_FILES if f not in FILES]   # tie T of the glue model
 PROP = "Properties/C01.v"
 
 KF_DIFFUSION = "C01:matrix_diffusion:stretch-as-rotation-rate"
@@ -180,8 +181,8 @@ def known_diffusion(chk, rec):
 
 
 def run(chk):
-    ok, br = proofs.prove(chk, FILES, PROP, groups=("core",), gen_modules=("core",))
-    chk.cov["trusted_base"] = common.TRUSTED_COMMON + [
+    ok, br = proofs.prove(chk, FILES, PROP, groups=("core",), gen_modules=MT.GLUE_TIE_GEN)
+    chk.cov["trusted_base"] = common.TRUSTED_COMMON + [MT.GLUE_TIE_TRUSTED,
         "hand-written Model_minerals (extract_vars, apply_gbs, update, histories, eval_rhs), tied by trace validation: the extracted model must reproduce the stored snapshot / returned F (exactly) and the recorded eval_rhs outputs (1e-9) from the recorded integrator vectors",
         "oracle: LSODA's final state vector (no hypothesis beyond its length and a positive clipped fraction sum; every theorem holds for all such vectors)",
         "oracle: np.abs(eigvalsh(D)).max() is the largest |v.Dv| over unit v (is_eigmax); residual-checked against a closed-form cubic solution on every recorded call",
